@@ -63,7 +63,7 @@ def main():
 
     try:
         source = SourceCode.from_file(args.input)
-    except OSError as err:
+    except (OSError, UnicodeError) as err:
         hidc.error(str(err))
         return 1
 
